@@ -106,6 +106,9 @@ func also(name string, methods ...string) {
 
 var totalRounds = 1
 
+// watchdog per round (the slowest legitimate rounds, group rebalances, take about a second)
+const watchdog = 12 * time.Second
+
 // runRound: the operations of round `round` = the `always` ones + a window that rotates through `ops`
 // (so that every operation of the list is forced within totalRounds/2 rounds of either list variant) +
 // random ones up to a random size in [min,max]; each runs in its own goroutine, released together.
@@ -159,8 +162,12 @@ func runRound(rng *rand.Rand, scen string, round int, ops []op, min, max int, al
 	go func() { wg.Wait(); close(done) }()
 	select {
 	case <-done:
-	case <-time.After(30 * time.Second):
+	case <-time.After(watchdog):
+		// a round that does not finish (deadlock / lost wake-up in the code under test) is not a data race: report it
+		// as an observation and stop this scenario — a hanging change must cost seconds, not minutes
 		fmt.Printf("stuck %s %d\n", scen, round)
+		fmt.Printf("done %s rounds=%d calls=%d ok: stuck-after-round-%d\n", scen, round, atomic.LoadInt64(&calls), round)
+		os.Exit(0)
 	}
 }
 
